@@ -436,11 +436,17 @@ func (x *Exec) chanRecv(st *State, fr *Frame, in *ssa.UnOp, ch Value) Value {
 		et = in.Type()
 	}
 	x.recvCtr++
-	v := x.symValue(st, et, fmt.Sprintf("recv%d", x.recvCtr))
+	rname := fmt.Sprintf("recv%d", x.recvCtr)
+	okname := fmt.Sprintf("recvok%d", x.recvCtr)
+	if x.noModular {
+		rname = x.occName(st, "recv")
+		okname = rname + "ok"
+	}
+	v := x.symValue(st, et, rname)
 	st.log = append(st.log, Event{kind: "recv", args: []Value{ch, v}})
 	st.version++
 	if in.CommaOk {
-		ok := freshVar(fmt.Sprintf("recvok%d", x.recvCtr), SBool)
+		ok := freshVar(okname, SBool)
 		return &Tuple{typ: in.Type(), el: []Value{v, ok}}
 	}
 	return v
